@@ -104,4 +104,62 @@ def bitsetSelect {ρ : Type} (W : Nat) (adm : ρ → Bool) (conds : List (ρ →
   ((rows.map key).eraseDups).filter (fun f =>
     groupOrW W ((rows.filter (fun r => key r == f)).map (fun r => conds.map (fun c => c r))) == 2 ^ conds.length - 1)
 
+/-! ### required and forbidden bits (matchers that accept the empty value are asked inverted: their bit must stay 0) -/
+
+theorem bits_lt (bs : List Bool) : bits bs < 2 ^ bs.length := by
+  induction bs with
+  | nil => simp [bits]
+  | cons b bs ih =>
+    simp only [bits, List.length_cons, Nat.pow_succ]
+    cases b <;> simp <;> omega
+
+theorem bits_eq_zero (bs : List Bool) : bits bs = 0 ↔ bs.any id = false := by
+  induction bs with
+  | nil => simp [bits]
+  | cons b bs ih =>
+    cases b
+    · simp only [bits, Bool.toNat_false, Nat.zero_add, List.any_cons, id, Bool.false_or]
+      rw [← ih]; omega
+    · simp only [bits, Bool.toNat_true, List.any_cons, id, Bool.true_or]
+      constructor
+      · intro h; omega
+      · intro h; cases h
+
+/-- HAVING groupBitOr(...) == Σ reqᵢ·2ⁱ ⇔ for every i < n: some row of the group has condition i ⇔ reqᵢ -/
+theorem having_bits_eq (n : Nat) (rows : List (List Bool)) (req : List Bool)
+    (hlen : ∀ r ∈ rows, r.length = n) (hreq : req.length = n) :
+    groupOr rows = bits req ↔ ∀ i, i < n → rows.any (fun r => r.getD i false) = req.getD i false := by
+  constructor
+  · intro h i _
+    have := congrArg (fun x => x.testBit i) h
+    simpa [groupOr, testBit_foldl_or, testBit_bits] using this
+  · intro h
+    apply Nat.eq_of_testBit_eq
+    intro i
+    simp only [groupOr, testBit_foldl_or, Nat.zero_testBit, Bool.false_or, testBit_bits]
+    by_cases hi : i < n
+    · exact h i hi
+    · have h1 : req.getD i false = false := by
+        have : req[i]? = none := List.getElem?_eq_none (by omega)
+        simp [List.getD, this]
+      rw [h1]
+      simp only [List.any_eq_false]
+      intro r hr
+      have hl := hlen r hr
+      have : r[i]? = none := List.getElem?_eq_none (by omega)
+      simp [List.getD, this]
+
+/-- Go: `required |= 1 << i` on an `int64`: a shift count ≥ 64 gives 0, bit 63 is the sign -/
+def requiredConst (req : List Bool) : Int :=
+  let u := bitsW 64 req
+  if u < 2 ^ 63 then (u : Int) else (u : Int) - 2 ^ 64
+
+/-- the selection scheme with an optional row filter and any HAVING test on the aggregate:
+    WHERE adm ∧ (useOr → c₀ ∨ c₁ …) GROUP BY key HAVING having(groupBitOr(…)) -/
+def bitsetSelectGen {ρ : Type} (W : Nat) (adm : ρ → Bool) (conds : List (ρ → Bool)) (useOr : Bool)
+    (having : Nat → Bool) (key : ρ → Nat) (tbl : List ρ) : List Nat :=
+  let rows := tbl.filter (fun r => adm r && (!useOr || conds.any (fun c => c r)))
+  ((rows.map key).eraseDups).filter (fun f =>
+    having (groupOrW W ((rows.filter (fun r => key r == f)).map (fun r => conds.map (fun c => c r)))))
+
 end Qryn.Prom.Bits
